@@ -90,3 +90,129 @@ mod verif_kani {
         core::mem::forget(res);
     }
 }
+
+#[cfg(kani)]
+mod verif_kani_bytes {
+    use super::*;
+    use serde::de::value::StrDeserializer;
+
+    /// error type of the deserializer used by the harnesses: carries no message (texts are irrelevant to the contracts)
+    #[derive(Debug)]
+    pub struct E;
+    impl core::fmt::Display for E {
+        fn fmt(&self, _f: &mut core::fmt::Formatter<'_>) -> core::fmt::Result {
+            Ok(())
+        }
+    }
+    impl std::error::Error for E {}
+    impl serde::de::Error for E {
+        fn custom<T: core::fmt::Display>(_msg: T) -> Self {
+            E
+        }
+    }
+
+    fn hexval(c: u8) -> Option<u8> {
+        match c {
+            b'0'..=b'9' => Some(c - b'0'),
+            b'a'..=b'f' => Some(c - b'a' + 10),
+            b'A'..=b'F' => Some(c - b'A' + 10),
+            _ => None,
+        }
+    }
+    /// reference: the text denotes a byte string iff it is 0x followed by an even number of hex digits of either case
+    fn reference<const L: usize>(t: &[u8; L]) -> Option<([u8; 40], usize)> {
+        if L < 2 || t[0] != b'0' || t[1] != b'x' || (L - 2) % 2 != 0 {
+            return None;
+        }
+        let mut out = [0u8; 40];
+        let mut i = 0;
+        while 2 + 2 * i + 1 < L {
+            match (hexval(t[2 + 2 * i]), hexval(t[3 + 2 * i])) {
+                (Some(h), Some(l)) => out[i] = 16 * h + l,
+                _ => return None,
+            }
+            i += 1;
+        }
+        Some((out, (L - 2) / 2))
+    }
+    fn any_ascii<const L: usize>() -> [u8; L] {
+        let t: [u8; L] = kani::any();
+        let mut i = 0;
+        while i < L {
+            kani::assume(t[i] < 0x80);
+            i += 1;
+        }
+        t
+    }
+
+    /// serialization::bytes::deserialize on every ASCII text of L characters: accepted iff 0x + an even number of hex
+    /// digits, and then the bytes are the digit pairs; a second prefix, a missing prefix, an odd digit or a foreign
+    /// character is an error
+    fn bytes_text_at<const L: usize>() {
+        let t = any_ascii::<L>();
+        let s = unsafe { core::str::from_utf8_unchecked(&t) };
+        let res = bytes::deserialize(StrDeserializer::<E>::new(s));
+        match (reference(&t), &res) {
+            (Some((want, n)), Ok(got)) => {
+                assert!(got.len() == n, "byte field: one byte per digit pair");
+                let mut i = 0;
+                while i < n {
+                    assert!(got[i] == want[i], "byte field: the bytes are the digit pairs written");
+                    i += 1;
+                }
+            }
+            (None, Err(_)) => {}
+            (Some(_), Err(_)) => assert!(false, "byte field: 0x-prefixed even-length hex was refused"),
+            (None, Ok(_)) => assert!(false, "byte field: text that is not 0x + even-length hex was accepted"),
+        }
+        kani::cover!(res.is_ok() == (L >= 2 && L % 2 == 0));
+        kani::cover!(res.is_err());
+        core::mem::forget(res);
+    }
+    /// serialization::bytearray::deserialize::<_, 32> (storage keys): accepted iff 0x + exactly 64 hex digits
+    fn bytearray32_text_at<const L: usize>() {
+        let t = any_ascii::<L>();
+        let s = unsafe { core::str::from_utf8_unchecked(&t) };
+        let res = bytearray::deserialize::<_, 32>(StrDeserializer::<E>::new(s));
+        match (reference(&t), &res) {
+            (Some((want, 32)), Ok(got)) => {
+                let mut i = 0;
+                while i < 32 {
+                    assert!(got[i] == want[i], "storage key: the 32 bytes are the digit pairs written");
+                    i += 1;
+                }
+            }
+            (Some((_, 32)), Err(_)) => assert!(false, "storage key: 0x + 64 hex digits was refused"),
+            (_, Ok(_)) => assert!(false, "storage key: text that is not 0x + exactly 64 hex digits was accepted (padded or truncated)"),
+            (_, Err(_)) => {}
+        }
+        kani::cover!(res.is_ok() == (L == 66));
+        core::mem::forget(res);
+    }
+    macro_rules! texts {
+        ($f:ident: $($name:ident => $l:expr, $u:expr;)*) => {$(
+            #[kani::proof]
+            #[kani::unwind($u)]
+            fn $name() { $f::<$l>() }
+        )*};
+    }
+    texts! { bytes_text_at:
+        c13_bytes_text_len0 => 0, 8;
+        c13_bytes_text_len1 => 1, 8;
+        c13_bytes_text_len2 => 2, 8;
+        c13_bytes_text_len3 => 3, 8;
+        c13_bytes_text_len4 => 4, 8;
+        c13_bytes_text_len5 => 5, 9;
+        c13_bytes_text_len6 => 6, 10;
+        c13_bytes_text_len8 => 8, 12;
+        c13_bytes_text_len12 => 12, 16;
+    }
+    texts! { bytearray32_text_at:
+        c13_key_text_len2 => 2, 36;
+        c13_key_text_len4 => 4, 36;
+        c13_key_text_len64 => 64, 68;
+        c13_key_text_len65 => 65, 69;
+        c13_key_text_len66 => 66, 70;
+        c13_key_text_len68 => 68, 72;
+    }
+}
